@@ -17,7 +17,7 @@ func init() {
 func (c *Ctx) sortComparators(pkgRel string) []*ssa.Function {
 	var out []*ssa.Function
 	for _, f := range c.Funcs {
-		if f.Pkg.Pkg.Path() != modPkg+pkgRel {
+		if pkgPathOf(f) != modPkg+pkgRel {
 			continue
 		}
 		forEachInstr(f, func(in ssa.Instruction) {
